@@ -493,8 +493,8 @@ func (c19) Eval(t *testing.T, c *Case, dec func(int) *Decider) *Outcome {
 		if c.Tier == "thorough" {
 			p, maxRuns = 0.15, 150
 		}
-		if Sub(c.Seed, "inject-pick").Bool(p) {
-			injectTier(o, bin, c, sc, &meta, maxRuns)
+		if Sub(c.Seed, "inject-pick").Bool(p) && straceTierAllowed(o) {
+			straceTierTimed(func() { injectTier(o, bin, c, sc, &meta, maxRuns) })
 		}
 	}
 	o.Sample = map[string]interface{}{"seed": c.Seed, "format": meta.Format, "source": meta.Source, "encoding": meta.Encoding, "truncated_at": meta.Trunc, "flags": meta.Flags,
